@@ -81,11 +81,15 @@ package kube
 //@   ensures [success-means-applied-or-update-error-recorded] result == nil ==> Aapplied[info]
 //@   ensures [never-deletes] Adeleted == old(Adeleted)
 
+//@ ghost func liveKeep(x *resource.Info) bool = accessible(liveObjectOf(x)) && objAnnos[liveObjectOf(x)] != nil && has(objAnnos[liveObjectOf(x)], ResourcePolicyAnno) && objAnnos[liveObjectOf(x)][ResourcePolicyAnno] == KeepPolicy
+
 //@ func (*Client).update
 //@   props C02
 //@   requires c != nil && infosOK(original) && infosOK(target)
 //@   ensures [deletes-only-removed-resources] forall x ref :: Adeleted[x] && !old(Adeleted)[x] ==> (exists i int :: 0 <= i && i < len(original) && original[i] == x) && !containsObject(target, x)
 //@   ensures [result-always] result0 != nil
+//@   ensures [never-deletes-a-live-object-that-carries-the-keep-policy] forall x ref :: Adeleted[x] && !old(Adeleted)[x] ==> !liveKeep(x)
+//@   loop 1 invariant [never-deletes-a-live-object-that-carries-the-keep-policy] (forall x ref :: Adeleted[x] && !old(Adeleted)[x] ==> !liveKeep(x)) && objAnnos == old(objAnnos)
 //@   loop 1 invariant [deleted-so-far] forall x ref :: Adeleted[x] && !old(Adeleted)[x] ==> (exists j int :: 0 <= j && j < #iter && #range[j] == x)
 //@   loop 1 invariant [candidates] forall j int :: 0 <= j && j < len(#range) ==> #range[j] != nil && #range[j].Mapping != nil && (exists i int :: 0 <= i && i < len(original) && original[i] == #range[j]) && !containsObject(target, #range[j])
 //@   loop 1 invariant [res] res != nil
